@@ -157,8 +157,8 @@ def fullSlice : PreVal := .slice none none none
 def rawTimestamps (c : Cfg) : List Rat :=
   (List.range c.T).map fun (i : Nat) => (c.sync + c.first) + (i : Rat) * c.intTime
 
-def openV4 (c : Cfg) (p : Preselect) : Except Err Opened := do
-  -- TelstateDataSource.__init__
+/-- TelstateDataSource.__init__: validation, `preselect_index` on the chunk index, timestamps -/
+def openSource (c : Cfg) (p : Preselect) : Except Err (List Nat × List Nat × List Rat) := do
   validatePreselect p
   let dumpBase ← (p.dumps.getD fullSlice).positions c.T       -- preselect_index[0] on the chunk index
   let chanBase ← (p.channels.getD fullSlice).positions c.F    -- preselect_index[1]
@@ -166,25 +166,37 @@ def openV4 (c : Cfg) (p : Preselect) : Except Err Opened := do
   let ts1 ← match p.dumps with
     | none => pure ts0
     | some v => sliceOf ts0 v
-  -- VisibilityDataV4.__init__
+  pure (dumpBase, chanBase, ts1)
+
+/-- VisibilityDataV4.__init__, "Extract timestamps": `+= time_offset`, the workaround, returns the
+    shifted timestamps and the recorded `time_offset` -/
+def shiftTimestamps (c : Cfg) (ts1 : List Rat) : Except Err (List Rat × Rat) := do
   let ts2 := ts1.map (· + c.timeOffset)
   let t0 ← getNat ts2 0                                        -- `source.timestamps[0]` in `_before`
   let apply := fixApplies (decide (t0 < c.d1)) (decide (t0 < c.d2)) (decide (t0 < c.d3)) c.cmc2 c.cbf4k
-  let (ts3, off) := match apply, c.cbf with
-    | true, some q => (ts2.map (· - q), c.timeOffset - q)
-    | _, _ => (ts2, c.timeOffset)
-  let half := (1 / 2 : Rat) * c.intTime
-  let startT := ts3.headD 0 - half
-  let endT := ts3.getLastD 0 + half
+  match apply, c.cbf with
+  | true, some q => pure (ts2.map (· - q), c.timeOffset - q)
+  | _, _ => pure (ts2, c.timeOffset)
+
+/-- VisibilityDataV4.__init__, "Extract spectral windows": sideband +1, channel preselect -/
+def openSpw (c : Cfg) (p : Preselect) : Except Err SpW :=
   let width := c.bandwidth / (c.F : Rat)
   let spw0 := SpW.new c.centre width c.F 1 none
-  let spw ← match p.channels with
-    | none => pure spw0
-    | some (.slice a b cc) =>
-      match sliceIndices c.F a b cc with
-      | none => .error .value
-      | some (s, e, _) => spw0.subrange s e
-    | some .other => .error .index
+  match p.channels with
+  | none => pure spw0
+  | some (.slice a b cc) =>
+    match sliceIndices c.F a b cc with
+    | none => .error .value
+    | some (s, e, _) => spw0.subrange s e
+  | some .other => .error .index
+
+def openV4 (c : Cfg) (p : Preselect) : Except Err Opened := do
+  let (dumpBase, chanBase, ts1) ← openSource c p
+  let (ts3, off) ← shiftTimestamps c ts1
+  let half := (1 / 2 : Rat) * c.intTime
+  let startT := ts3.headD 0 - half
+  let endT := ts3.getD (ts3.length - 1) 0 + half             -- `source.timestamps[-1]`
+  let spw ← openSpw c p
   pure { ts := ts3, timeOffset := off, startT, endT, spw, dumpBase, chanBase }
 
 /-! ## Later selections (dataset.py: `dump_keep[v] = True`): a set of positions of the opened axis -/
